@@ -48,3 +48,55 @@ extern "C" void h_final_2s() {   // two stoppers
   VF_ASSERT(first_a != first_b, "exactly one request_stop() observes it was first");
   src->~inplace_stop_source();
 }
+
+// ---- variants with registrations made in setup
+using cb1_t = inplace_stop_callback<F1>;
+static cb1_t* cb1p;
+extern "C" void h_setup_reg1() { h_setup(); cb1p = new (cb1buf) cb1_t(src->get_token(), F1{}); }
+// second stopper that afterwards deregisters cb1: after its request_stop() returned the callback must have run or be running;
+// after the deregistration returned it must not be running any more.
+extern "C" void h_stop_then_dereg() {
+  first_b = !src->request_stop();
+  cb1p->~cb1_t();
+  dead1 = true;
+}
+extern "C" void h_final_regd() {
+  VF_ASSERT(runs1 == 1, "callback registered before request_stop() did not run exactly once");
+  VF_ASSERT(first_a != first_b, "exactly one request_stop() observes it was first");
+  VF_ASSERT(src->stop_requested(), "stop_requested() false after request_stop returned");
+  src->~inplace_stop_source();
+}
+// self-deregistration from inside the callback must not deadlock
+static int runs3; static bool dead3;
+struct F3;
+alignas(8) static char cb3buf[64];
+struct F3 { void operator()() noexcept; };
+using cb3_t = inplace_stop_callback<F3>;
+static cb3_t* cb3p;
+void F3::operator()() noexcept { VF_ASSERT(!dead3, "cb3 ran after deregistration"); ++runs3; vf_visible(); cb3p->~cb3_t(); dead3 = true; }
+extern "C" void h_setup_reg3() { static_assert(sizeof(cb3_t) <= sizeof(cb3buf)); h_setup(); cb3p = new (cb3buf) cb3_t(src->get_token(), F3{}); }
+extern "C" void h_final_self() {
+  VF_ASSERT(runs3 == 1 && dead3, "self-deregistering callback did not run exactly once");
+  VF_ASSERT(first_a != first_b, "exactly one request_stop() observes it was first");
+  src->~inplace_stop_source();
+}
+// a callback that deregisters ANOTHER registration which has not run yet: that one must then never run
+static int runs4;
+struct F4 { void operator()() noexcept { ++runs4; if (!runs1 && !dead1) { vf_witness(4); cb1p->~cb1_t(); dead1 = true; } } };
+using cb4_t = inplace_stop_callback<F4>;
+alignas(8) static char cb4buf[sizeof(cb4_t)], cb5buf[sizeof(inplace_stop_callback<F2>)];
+extern "C" void h_setup_reg14() {   // three registrations: cb2 (oldest), cb1, cb4 (newest, delivered first)
+  h_setup();
+  new (cb5buf) inplace_stop_callback<F2>(src->get_token(), F2{});
+  cb1p = new (cb1buf) cb1_t(src->get_token(), F1{});
+  new (cb4buf) cb4_t(src->get_token(), F4{});
+}
+extern "C" void h_dereg1_late() {   // another thread deregisters cb1 concurrently
+  if (!dead1) { bool mine = false; /* racy on purpose: only one of F4 / this thread may destroy */ }
+}
+extern "C" void h_final_cross() {
+  VF_ASSERT(runs4 == 1, "newest callback did not run exactly once");
+  VF_ASSERT(runs2 == 1, "oldest callback did not run exactly once");
+  VF_ASSERT(runs1 + (dead1 ? 1 : 0) >= 1 && runs1 <= 1, "cb1 neither ran nor was deregistered");
+  src->~inplace_stop_source();
+}
